@@ -46,7 +46,7 @@ Definition check_exp_model := mismatches exp_model_ok.
 Definition imp_model_ok (c : cj * sstr * list sstr * (sstr * Z) * (sstr * Z)) : bool :=
   let '(j0, spec0, conds0, r1, r2) := c in
   let j := to_json j0 in let spec := s_ spec0 in let conds := map s_ conds0 in
-  match parse_root j with
+  match parse_root_imports j with
   | None => snd r1 =? -1
   | Some p =>
       let m := imports_resolve spec p conds in
